@@ -116,6 +116,20 @@ CHECKS = {
           "answer in 15 min per arm) are outside."),
     design_ref="DESIGN.md §0 and §6 C16",
     note=TRUST_KANI + " Transforms T1c (HashMap / per-name Vec -> heap-light stand-ins with the same contract, one boxed cell per record) and T7v (Location stored in a Variable -> unit stand-in)."),
+ "C14": dict(
+    engine="kani-real",
+    technique="bounded model checking (Kani/CBMC SAT): inductive steps of the real pipe buffer of the simulated system (FileBody::Fifo poll_write / poll_read) from every fill level, for every request size up to beyond the capacity, byte values and reader / writer counts symbolic",
+    text=("One read or one write on ANY pipe state follows the POSIX pipe rules: a write is refused with EPIPE without readers; a "
+          "request that fits is accepted completely; one that does not fit blocks without accepting anything when it is atomic "
+          "(<= PIPE_BUF) or the pipe is full, and otherwise fills exactly the free room; the pipe never exceeds its capacity; a read "
+          "blocks only on an empty pipe that still has a writer, delivers min(request, available) bytes from the front IN ORDER and "
+          "removes exactly those; end of file only without writers; peers are woken exactly when bytes arrive / room is made. One "
+          "step covers every interleaving of reads and writes on a pipe, for payloads beyond the capacity. Not decided: the stored "
+          "order of the bytes accepted by a write (std VecDeque::extend; measured out of memory), the transfer loops above the "
+          "buffer, pipeline wiring, command substitution's trailing-newline removal and here-documents (async closures / "
+          "concurrency)."),
+    design_ref="DESIGN.md §0 and §6 C14",
+    note=TRUST_KANI + " Transforms T6 (PIPE_BUF scaled from 512 to 4; PIPE_SIZE = 2 x PIPE_BUF follows) and T10 (WakerSet -> counting stand-in)."),
 }
 
 NOT_APPLICABLE = {
@@ -124,7 +138,6 @@ NOT_APPLICABLE = {
  "C08": "subshell entry is built on async closures (Kani 0.68 ICE) and whole-Env cloning; the trap-reset clause is decided under C11",
  "C09": "built and abandoned: one redirection through the real perform() on a 6-descriptor stub system (T2 expansion models, narrowed bound, recursion bound on Location drop glue, futures never dropped) was still in symbolic execution at 8-12 GB after 31 min and ran out of memory; the saved-descriptor leak on failed redirections is visible by reading only",
  "C13": "concurrency/schedules: Kani does not model concurrent code; wait_for_subshell over a symbolic-schedule kernel stub gave no answer in 40 min; child start sites are async closures (Kani ICE)",
- "C14": "pipe buffer step (FileBody::Fifo poll_write) exceeded 12 GB per arm even with scaled constants (WakerSet hash sets); transfer loops and pipelines are concurrency",
  "C15": "executor Task/Waker: Rc<RefCell<VecDeque<Rc<Task>>>> + dyn Future + RawWaker vtable fan-out; three formulations (history, step lemma, Task::wake alone) all exceeded 10 GB or 25 min",
  "C17": "alias substitution lives inside the lexer/parser on which CBMC runs out of memory even for concrete input (see C06)",
  "C18": "FdReader2::next_line single arm ran the SAT back end out of memory (UTF-8 validation of symbolic bytes); the rest is parser + read-eval loop (command execution)",
@@ -133,7 +146,7 @@ NOT_APPLICABLE = {
 }
 
 # properties whose quick check has run green on the unchanged tree in this sandbox
-ENABLED = ["C01", "C02", "C03", "C04", "C07", "C10", "C11", "C12", "C16"]
+ENABLED = ["C01", "C02", "C03", "C04", "C07", "C10", "C11", "C12", "C14", "C16"]
 
 
 def main():
